@@ -11,6 +11,7 @@ import (
 	"flag"
 	"fmt"
 	"math/big"
+	"strings"
 	"sync"
 	"time"
 
@@ -188,6 +189,12 @@ func (e *env) verdict(op, kind string, honest, wantAccept bool, desc func() stri
 		return false
 	}
 	e.c.Class(op + "/" + map[bool]string{true: "accept", false: "reject"}[wantAccept] + "/" + kind)
+	if i := strings.Index(op, "/"); i >= 0 { // one example per entry point and expected verdict (whatever the curve)
+		if j := strings.Index(op[i+1:], "/"); j >= 0 {
+			e.c.SampleOnce(op[i+j+2:]+map[bool]string{true: " accepts", false: " rejects"}[wantAccept], map[string]any{
+				"instance": op, "kind": kind, "case": desc(), "verifier_error": fmt.Sprint(err), "expected_accept": wantAccept})
+		}
+	}
 	switch {
 	case honest:
 		e.c.Check(op, op+"/honest-rejected/"+kind, err == nil, func() string { return "honest proof rejected: " + desc() + " err=" + fmt.Sprint(err) })
